@@ -72,7 +72,11 @@ func kernelPad(name string) []byte {
 	return b
 }
 
+// floodCap: how many values on Errors one session may produce before the harness stops recording
+const floodCap = 4096
+
 type observed struct {
+	flood  bool
 	mu     sync.Mutex
 	events []fsnotify.Event
 	errs   []error
@@ -169,8 +173,10 @@ func newSession(root string, bufsz uint) *session {
 				if !ok {
 					ev = nil
 					s.obs.evDone = true
-				} else {
+				} else if len(s.obs.events) < 256*floodCap {
 					s.obs.events = append(s.obs.events, e)
+				} else {
+					s.obs.flood = true
 				}
 				s.obs.mu.Unlock()
 			case e, ok := <-er:
@@ -178,8 +184,10 @@ func newSession(root string, bufsz uint) *session {
 				if !ok {
 					er = nil
 					s.obs.erDone = true
-				} else {
+				} else if len(s.obs.errs) < floodCap {
 					s.obs.errs = append(s.obs.errs, e)
+				} else {
+					s.obs.flood = true // a reader stuck on one record must not eat the machine's memory
 				}
 				s.obs.mu.Unlock()
 			}
@@ -280,7 +288,7 @@ func (s *session) inject(buf []byte, timeout time.Duration) (evs []fsnotify.Even
 			s.obs.mu.Unlock()
 			return evs, errs, true
 		}
-		done := s.obs.evDone
+		done := s.obs.evDone || s.obs.flood
 		s.obs.mu.Unlock()
 		if done || time.Now().After(deadline) {
 			s.obs.mu.Lock()
@@ -709,6 +717,9 @@ func runInject(r *rec, g *rng, tier, what, replay, out string, extra map[string]
 			b, _ := json.Marshal(map[string]interface{}{"property": prop, "signature": sig, "what": what, "detail": detail})
 			mon.Write(append(b, '\n'))
 		}
+		hangCtx.Store("session", si)
+		hangCtx.Store("seed", base)
+		hangCtx.Store("tier", tier)
 		r.emit("reset", fmt.Sprintf("reset session=%d bufsz=%d", si, bufsz), "ok")
 		s.opAdd(r, s.sentinel, 0x1f, false)
 		if wd, ok := s.wdOf(s.sentinel, false); ok {
@@ -931,8 +942,12 @@ var scripts = []func(r *rec, s *session, u *universe){
 		os.Symlink("d1", filepath.Join(u.root, "l0"))
 		s.opAdd(r, "l0", 0x1f, false)
 		s.opWatchList(r)
+		// the directory keeps the name it was first added under (C08), whatever was re-added since
+		wd := s.wdFor("d1")
+		s.rawRecs(r, rawRec{wd: wd, mask: inCreate, name: kernelPad("file")}, rawRec{wd: wd, mask: inModify, name: kernelPad("file")})
 		s.opRemove(r, "l0")
 		s.opRemove(r, "d1")
+		s.rawRecs(r, rawRec{wd: wd, mask: inIgnored})
 	},
 	// F2(b): re-Add of a path whose previous inode is kept alive by a hard link
 	func(r *rec, s *session, u *universe) {
@@ -941,6 +956,7 @@ var scripts = []func(r *rec, s *session, u *universe){
 		os.Remove(f)
 		os.WriteFile(f, []byte("again"), 0o644)
 		s.opAdd(r, f, 0x1f, false)
+		s.rawRecs(r, rawRec{wd: s.wdFor(f), mask: inModify})
 		s.opRemove(r, f)
 		s.opWatchList(r)
 	},
